@@ -25,6 +25,7 @@ type Exec struct {
 	specFuel *Term
 	specSCC  map[string]bool
 	canaryDone bool
+	ncanary    int
 	nframes int
 	Notes  []string
 	lemmaAxioms []*Term
@@ -120,6 +121,16 @@ func (x *Exec) assume(st *St, f *Term) {
 		return
 	case "false":
 		st.dead = true
+	}
+	// cheap pruning: the negation of f is already a hypothesis of this path
+	neg := Not(f).String()
+	for _, h := range st.pc {
+		if h.Op == f.Op || h.Op == "not" || f.Op == "not" {
+			if h.String() == neg {
+				st.dead = true
+				break
+			}
+		}
 	}
 	st.pc = append(st.pc, f)
 }
@@ -422,6 +433,12 @@ func (x *Exec) coerce(st *St, v *Val, to types.Type) *Val {
 			}
 		}
 		if _, isIface := to.Underlying().(*types.Interface); isIface && v.Ty != nil {
+			if v.T.Sort != SRef {
+				// a basic value stored in an interface: an opaque box
+				b := x.fresh("box", SRef)
+				x.assume(st, Neq(b, Null))
+				return &Val{T: b, Ty: to}
+			}
 			if _, fromIface := v.Ty.Underlying().(*types.Interface); !fromIface {
 				x.typeFacts(st, v.T, v.Ty)
 			}
